@@ -58,7 +58,9 @@ def cases(draw, max_puts=8):
             'kwargs': draw(st.booleans()),
             # another block is still initialising asynchronously until t = 5: a stop before that
             # instant reaches the output block before its own regular initialisation
-            'slow_init': draw(st.integers(0, 3)) == 0}
+            'slow_init': draw(st.integers(0, 3)) == 0,
+            # the stop is requested a second time while the clean-up is in progress (no effect expected)
+            'second_stop': draw(st.sampled_from([None, None, 0.0, 0.5, 1.5]))}
 
 
 def strategy(tier):
@@ -166,7 +168,18 @@ def execute(case):
         await harness.vloop.sleep_until(loop, t0 + case['stop'])
         info['error'] = repr(circuit.error) if circuit.error is not None else None
         log.append((now(), 'STOP'))
-        err = await sim.stop()
+        if case.get('second_stop') is not None:
+            async def again():
+                await asyncio.sleep(case['second_stop'])
+                try:
+                    await circuit.shutdown()
+                except BaseException:
+                    pass
+            second = asyncio.create_task(again())
+            err = await sim.stop()
+            await second
+        else:
+            err = await sim.stop()
         log.append((now(), 'STOPPED', oa.output))
         info['stop_error'] = repr(err) if err is not None else None
         # let anything that outlived the simulation show itself
@@ -331,6 +344,8 @@ def execute(case):
     res.classes = [f"mode={mode}", 'generous' if generous else 'tight stop_timeout']
     if case.get('slow_init') and case['stop'] < 5:
         res.classes.append('stopped during start-up')
+    if case.get('second_stop') is not None:
+        res.classes.append('second stop request during clean-up')
     if guard:
         res.classes.append('guard_time')
     if case['stop_data']:
